@@ -9,6 +9,7 @@ import KvarnModel.Drv.C01
 import KvarnModel.Drv.C02
 import KvarnModel.Drv.C07
 import KvarnModel.Drv.C06
+import KvarnModel.Drv.C04
 import KvarnModel.Drv.C03
 import KvarnModel.Drv.C05
 import KvarnModel.Drv.C13
@@ -38,6 +39,7 @@ def dispatchLine (line : String) : String :=
       | ["c01", f] => Drv.C01.handle (f :: args)
       | ["c07", f] => Drv.C07.handle (f :: args)
       | ["c06", f] => Drv.C06.handle (f :: args)
+      | ["c04", f] => Drv.C04.handle (f :: args)
       | ["c02", f] => Drv.C02.handle (f :: args)
       | ["c03", f] => Drv.C03.handle' (f :: args)
       | ["c05", f] => Drv.C05.handle (f :: args)
